@@ -895,7 +895,9 @@ func transformTrace(args []string) {
 
 		res, err := tr.TransformDocument(rm, protocol.TransformationInfo{"id": "did:sidetree:abc", "published": true})
 		if err != nil {
-			fatalf("transform: %v", err)
+			// (logged as a list that was not reported: TLC rejects it unless the list is empty)
+			_ = enc.Encode(map[string]interface{}{"event": "ops", "ops": logged, "published": published, "reported": []interface{}{}, "bad": "transform error: " + err.Error()})
+			continue
 		}
 
 		ops = orig
@@ -930,7 +932,7 @@ func transformTrace(args []string) {
 			reported = append(reported, map[string]interface{}{"t": uint64(t), "n": uint64(nn)})
 		}
 
-		_ = enc.Encode(map[string]interface{}{"event": "ops", "ops": logged, "published": published, "reported": reported})
+		_ = enc.Encode(map[string]interface{}{"event": "ops", "ops": logged, "published": published, "reported": reported, "bad": ""})
 	}
 
 	transformKeysTrace(enc, r, newKeyPool(seed), n)
